@@ -43,7 +43,7 @@ Print Assumptions C02_head_well_moded.
 
 (* before the repair: two calls on a fresh folder, both read sqlite_master under a deferred BEGIN,
    the second one's DROP TABLE fails at once with "database is locked" *)
-Definition P0 := Par 0 true false true.
+Definition P0 := Par 0 true false true 30.
 Theorem C02_refuted_deferred :
   exists sched, In (Err EBusy) (map t_st (c_thrs (fst (run sched (init_cfg prog_prefix (Some empty_db) [P0; P0]))))).
 Proof. exists [0;1;0;1;0;1;0;1;0;1]. vm_compute. auto. Qed.
@@ -91,8 +91,8 @@ Print Assumptions C02_busy_only_on_upgrade.
 (* non-vacuity: three calls (a miss, a hit with last-hit update, a syntax error) on a database with
    a wrong `models` layout, an interleaved schedule with blocked attempts, all finish *)
 Example C02_example :
-  let pars := [Par 0 true false true; Par 1 true true true; Par 2 true false false] in
-  let d0 := Db TWrong TGood true [1] in
+  let pars := [Par 0 true false true 30; Par 1 true true true 30; Par 2 true false false 30] in
+  let d0 := Db TWrong TGood true [(1, 0)] in
   let r := run (concat (repeat [0;1;2;2;1;0] 40)) (init_cfg prog_head (Some d0) pars) in
   map t_st (c_thrs (fst r)) = [Fin; Fin; Fin] /\
   existsb (fun o => out_eqb (snd o) OBlocked) (snd r) = true /\
